@@ -9,6 +9,11 @@ it was given.  The harness therefore never calls the solver in-process:
     ans is None                          # worker died / timed out -> solver fault (box.faults += 1), worker restarted
     ans = {"status": "OPTIMAL"|"FEASIBLE"|"INFEASIBLE"|..., "alloc": [names], "b": float, "pf": [[float per name]],
            "validate": bool}             # `validate` = the library's own validate_price_system on the returned system
+    ans = box.call({"op": "relax", "case": ..., "W": [...]|None, "kind": "mul"|"add"|"vec"|"vecpos"|"off", "exhaustive": b})
+                                         # priceable(..., stable=True, relaxation=R(inst, prof)); the answer additionally has
+                                         # "beta" (the objective value: beta / sum of beta_c / beta_global), "beta_global",
+                                         # "betav" (beta_c per name), "rc" (R.get_relaxed_cost per name) and `validate` is
+                                         # validate_price_system(..., stable=True, relaxation=<the same R with its saved beta>)
     ans = {"error": "<exception class>: message"}   # Python exception inside the library call
 
 Protocol: one JSON object per line on the worker's stdin; answers on a dedicated pipe (fd passed with
@@ -128,7 +133,45 @@ def _priceable(job):
     return out
 
 
-OPS = {"priceable": _priceable}
+RELAX_CLASSES = {"mul": "MinMul", "add": "MinAdd", "vec": "MinAddVector", "vecpos": "MinAddVectorPositive", "off": "MinAddOffset"}
+
+
+def _relax(job):
+    from . import core
+    from .core import Case
+    from pabutools.analysis.priceability import priceable, validate_price_system
+    import pabutools.analysis.priceability_relaxation as rel
+
+    case = Case.from_json(job["case"])
+    inst, projs = core.build_instance(case)
+    prof = core.build_profile(case, inst, projs, multi=False)
+    W = job.get("W")
+    alloc = None if W is None else [projs[n] for n in W]
+    R = getattr(rel, RELAX_CLASSES[job["kind"]])(inst, prof)
+    res = priceable(inst, prof, alloc, stable=True, exhaustive=bool(job.get("exhaustive")), relaxation=R,
+                    max_seconds=int(job.get("max_seconds", 30)))
+    out = {"status": res.status.name}
+    if res.validate():
+        out["alloc"] = sorted(p.name for p in res.allocation)
+        out["b"] = float(res.voter_budget)
+        out["pf"] = [[float(pf[projs[n]]) for n in case.names] for pf in res.payment_functions]
+        beta = res.relaxation_beta
+        if isinstance(beta, dict):
+            out["betav"] = [float(beta["beta"].get(projs[n], 0)) for n in case.names]
+            out["beta_global"] = float(beta["beta_global"]) if "beta_global" in beta else None
+            out["beta"] = float(beta["beta_global"]) if "beta_global" in beta else float(beta["sum"])
+            out["sum"] = float(beta["sum"])
+        else:
+            out["betav"] = None
+            out["beta_global"] = float(beta)
+            out["beta"] = float(beta)
+        out["rc"] = [float(R.get_relaxed_cost(projs[n])) for n in case.names]
+        out["validate"] = bool(validate_price_system(inst, prof, res.allocation, res.voter_budget, res.payment_functions,
+                                                     stable=True, exhaustive=bool(job.get("exhaustive")), relaxation=R))
+    return out
+
+
+OPS = {"priceable": _priceable, "relax": _relax}
 
 
 def _worker(fd):
